@@ -32,21 +32,26 @@ variable (sf : Special ℝ)
 structure OsuWindowsOK (c : OsuCalc ℝ) : Prop where
   great_pos : 0 < c.attrs.greatHitWindow
   ok_pos : 0 < c.attrs.okHitWindow
+  /-- bounds that keep the Wilson bound below `1 − 10⁻¹¹` (`u32` counts satisfy them) -/
+  snc_le : c.attrs.speedNoteCount ≤ 8589934592
+  hits_le : c.state.totalHits ≤ 2 ^ 33
 
 /-- the deviation before the selection is positive when a great was hit (`p > 0`) -/
 theorem osuDeviationCore_spec (E : ErfFacts sf) (c : OsuCalc ℝ) (W : OsuWindowsOK c) {n p : ℝ}
-    (hn : 0 < n) (hp0 : 0 ≤ p) (hp1 : p ≤ 1) :
+    (hn : 0 < n) (hp0 : 0 ≤ p) (hp1 : p ≤ 1) (hN : n ≤ maxHits) :
     0 < (osuDeviationCore sf c n p).1
     ∧ (p = 0 → (osuDeviationCore sf c n p).2.1 = 0)
     ∧ (0 < p → 0 < (osuDeviationCore sf c n p).2.1 ∧ (osuDeviationCore sf c n p).2.1 < 1
-        ∧ 0 < c.attrs.greatHitWindow / (Real.sqrt 2.0 * sf.erfInv (osuDeviationCore sf c n p).2.1)) := by
+        ∧ 0 < c.attrs.greatHitWindow / (Real.sqrt 2.0 * sf.erfInv (osuDeviationCore sf c n p).2.1)
+        ∧ 0 < sf.erfInv (osuDeviationCore sf c n p).2.1) := by
   have hpl0 : p = 0 → pLowerBound n p = 0 := fun h => by rw [h]; exact pLowerBound_zero n hn
   have hplpos : 0 < p → 0 < pLowerBound n p ∧ pLowerBound n p < 1 := fun h => pLowerBound_mem n p hn h hp1
   have hd0 : 0 < p → 0 < c.attrs.greatHitWindow / (Real.sqrt 2.0 * sf.erfInv (pLowerBound n p)) := by
     intro h
     obtain ⟨a, b⟩ := hplpos h
-    exact div_pos W.great_pos (mul_pos sqrt_two_pos (E.erfInv_pos _ a b))
-  refine ⟨?_, hpl0, fun h => ⟨(hplpos h).1, (hplpos h).2, hd0 h⟩⟩
+    exact div_pos W.great_pos (mul_pos sqrt_two_pos (E.erfInv_pos _ a (pLowerBound_le n p hn hp0 hp1 hN)))
+  refine ⟨?_, hpl0, fun h => ⟨(hplpos h).1, (hplpos h).2, hd0 h,
+    E.erfInv_pos _ (hplpos h).1 (pLowerBound_le n p hn hp0 hp1 hN)⟩⟩
   unfold osuDeviationCore
   extract_lets pl g o d0 rv d1 lim sel
   show 0 < sel
@@ -78,6 +83,7 @@ theorem osuDeviationCore_spec (E : ErfFacts sf) (c : OsuCalc ℝ) (W : OsuWindow
 
 /-- the inputs of `calculate_deviation` as `calculate_speed_deviation` produces them -/
 structure RelevantCountsOK (great ok meh miss : ℝ) : Prop where
+  go_le : great + ok ≤ maxHits
   great_nonneg : 0 ≤ great
   ok_nonneg : 0 ≤ ok
   meh_nonneg : 0 ≤ meh
@@ -88,7 +94,8 @@ theorem relevant_n_p {great ok meh miss : ℝ} (R : RelevantCountsOK great ok me
       ∧ 0 ≤ great / max 1.0 (great + ok + meh + miss - miss - meh)
       ∧ great / max 1.0 (great + ok + meh + miss - miss - meh) ≤ 1
       ∧ (great = 0 → great / max 1.0 (great + ok + meh + miss - miss - meh) = 0)
-      ∧ (0 < great → 0 < great / max 1.0 (great + ok + meh + miss - miss - meh)) := by
+      ∧ (0 < great → 0 < great / max 1.0 (great + ok + meh + miss - miss - meh))
+      ∧ max 1.0 (great + ok + meh + miss - miss - meh) ≤ maxHits := by
   have hn : (0 : ℝ) < max 1.0 (great + ok + meh + miss - miss - meh) :=
     lt_of_lt_of_le (by norm_num) (le_max_left _ _)
   have hge : great ≤ max 1.0 (great + ok + meh + miss - miss - meh) := by
@@ -96,8 +103,12 @@ theorem relevant_n_p {great ok meh miss : ℝ} (R : RelevantCountsOK great ok me
       have := R.ok_nonneg
       linarith
     exact le_trans this (le_max_right _ _)
-  refine ⟨hn, div_nonneg R.great_nonneg hn.le, (div_le_one hn).2 hge, ?_, fun h => div_pos h hn⟩
-  intro h; rw [h, zero_div]
+  refine ⟨hn, div_nonneg R.great_nonneg hn.le, (div_le_one hn).2 hge, ?_, fun h => div_pos h hn, ?_⟩
+  · intro h; rw [h, zero_div]
+  · apply max_le
+    · unfold maxHits; norm_num
+    · have := R.go_le
+      linarith
 
 /-- `calculate_deviation` returns a positive number whenever it returns -/
 theorem calculateDeviation_pos (E : ErfFacts sf) (c : OsuCalc ℝ) (W : OsuWindowsOK c)
@@ -111,8 +122,8 @@ theorem calculateDeviation_pos (E : ErfFacts sf) (c : OsuCalc ℝ) (W : OsuWindo
       have := (r_le_false _ _).1 (by simpa using hs)
       have h0 : (0.0 : ℝ) = 0 := by norm_num
       rw [h0] at this; exact not_le.mp this
-    obtain ⟨hn, hp0, hp1, _, _⟩ := relevant_n_p R
-    have hsel := (osuDeviationCore_spec sf E c W hn hp0 hp1).1
+    obtain ⟨hn, hp0, hp1, _, _, hN⟩ := relevant_n_p R
+    have hsel := (osuDeviationCore_spec sf E c W hn hp0 hp1 hN).1
     simp only [Option.some.injEq] at h
     rw [← h]
     apply Real.sqrt_pos.2
@@ -139,8 +150,8 @@ theorem calculateDeviationDom_true (E : ErfFacts sf) (c : OsuCalc ℝ) (W : OsuW
       have := (r_le_false _ _).1 (by simpa using hs)
       have h0 : (0.0 : ℝ) = 0 := by norm_num
       rw [h0] at this; exact not_le.mp this
-    obtain ⟨hn, hp0, hp1, hpz, hpp⟩ := relevant_n_p R
-    obtain ⟨hsel, hpl0, hplp⟩ := osuDeviationCore_spec sf E c W hn hp0 hp1
+    obtain ⟨hn, hp0, hp1, hpz, hpp, hN⟩ := relevant_n_p R
+    obtain ⟨hsel, hpl0, hplp⟩ := osuDeviationCore_spec sf E c W hn hp0 hp1 hN
     extract_lets objectCount n p pl dev0 sel mv
     have e1 : nz n = true := by rw [nz_iff]; exact hn.ne'
     have e2 : pLowerBoundDom n p = true := pLowerBoundDom_true n p hn hp0 hp1
@@ -159,7 +170,7 @@ theorem calculateDeviationDom_true (E : ErfFacts sf) (c : OsuCalc ℝ) (W : OsuW
           rcases R.great_nonneg.lt_or_eq with h | h
           · exact h
           · exact absurd (hpl0 (hpz h.symm)) hplne
-        obtain ⟨a1, a2, a3⟩ := hplp (hpp hgreat)
+        obtain ⟨a1, a2, a3, a4⟩ := hplp (hpp hgreat)
         have hd0 : 0 < dev0 := a3
         have b1 : PPOps.lt (-1.0 : ℝ) pl = true := by
           rw [r_lt]; have : (-1.0 : ℝ) < 0 := by norm_num
@@ -168,7 +179,7 @@ theorem calculateDeviationDom_true (E : ErfFacts sf) (c : OsuCalc ℝ) (W : OsuW
           rw [r_lt]; have h1 : (1.0 : ℝ) = 1 := by norm_num
           rw [h1]; exact a2
         have b3 : nz (PPOps.sqrt 2.0 * sf.erfInv pl : ℝ) = true := by
-          rw [nz_iff]; exact (mul_pos sqrt_two_pos (E.erfInv_pos _ a1 a2)).ne'
+          rw [nz_iff]; exact (mul_pos sqrt_two_pos a4).ne'
         have b4 : nz dev0 = true := by rw [nz_iff]; exact hd0.ne'
         have b5 : nz (PPOps.sqrt 2.0 * dev0 : ℝ) = true := by
           rw [nz_iff]; exact (sqrt_two_mul_pos hd0).ne'
@@ -188,7 +199,8 @@ theorem calculateDeviationDom_true (E : ErfFacts sf) (c : OsuCalc ℝ) (W : OsuW
     rw [e1, e2, e3, e4, e5]; rfl
 
 /-- the relevant counts are non-negative when `speed_note_count ≥ 0` -/
-theorem osuRelevantCounts_ok (c : OsuCalc ℝ) (hs : 0 ≤ c.attrs.speedNoteCount) :
+theorem osuRelevantCounts_ok (c : OsuCalc ℝ) (hs : 0 ≤ c.attrs.speedNoteCount)
+    (hsl : c.attrs.speedNoteCount ≤ 8589934592) (hhl : c.state.totalHits ≤ 2 ^ 33) :
     RelevantCountsOK (osuRelevantCounts c).1 (osuRelevantCounts c).2.1 (osuRelevantCounts c).2.2.1
       (osuRelevantCounts c).2.2.2 := by
   unfold osuRelevantCounts
@@ -202,13 +214,33 @@ theorem osuRelevantCounts_ok (c : OsuCalc ℝ) (hs : 0 ≤ c.attrs.speedNoteCoun
     ⟨le_min (Nat.cast_nonneg _) (sub_nonneg.2 hmiss.2), min_le_right _ _⟩
   have hok : 0 ≤ ok := le_min (Nat.cast_nonneg _) (sub_nonneg.2 hmeh.2)
   have hgreat : 0 ≤ great := le_trans (by norm_num) (le_max_left _ _)
-  exact ⟨hgreat, hok, hmeh.1, hmiss.1⟩
+  refine ⟨?_, hgreat, hok, hmeh.1, hmiss.1⟩
+  have ht : ((c.state.totalHits : ℕ) : ℝ) ≤ 8589934592 := by
+    have : ((2 ^ 33 : ℕ) : ℝ) = 8589934592 := by norm_num
+    rw [← this]; exact_mod_cast hhl
+  have hsncle : snc ≤ 8589934592 := by
+    show c.attrs.speedNoteCount + ((c.state.totalHits : ℝ) - c.attrs.speedNoteCount) * 0.1 ≤ 8589934592
+    norm_num; nlinarith
+  have hokle : ok ≤ 8589934592 := by
+    have h1 : ok ≤ ((c.state.n100 : ℕ) : ℝ) := min_le_left _ _
+    have h2 : ((c.state.n100 : ℕ) : ℝ) ≤ ((c.state.totalHits : ℕ) : ℝ) := by
+      have : c.state.n100 ≤ c.state.totalHits := by unfold Rosu.Finite.OsuState.totalHits; omega
+      exact_mod_cast this
+    linarith
+  have hgle : great ≤ 8589934592 := by
+    apply max_le
+    · norm_num
+    · have := hmiss.1
+      have := hmeh.1
+      linarith
+  unfold maxHits
+  linarith
 
 /-- `SpeedDeviationOK` from `ErfFacts`, positive great/ok hit windows and `speed_note_count ≥ 0` -/
 theorem speedDeviationOK_of (E : ErfFacts sf) (c : OsuCalc ℝ) (W : OsuWindowsOK c)
     (hs : 0 ≤ c.attrs.speedNoteCount) : SpeedDeviationOK sf c := by
-  have W' : OsuWindowsOK (osuAdjusted c) := ⟨W.great_pos, W.ok_pos⟩
-  have R := osuRelevantCounts_ok (osuAdjusted c) hs
+  have W' : OsuWindowsOK (osuAdjusted c) := ⟨W.great_pos, W.ok_pos, W.snc_le, W.hits_le⟩
+  have R := osuRelevantCounts_ok (osuAdjusted c) hs W.snc_le W.hits_le
   constructor
   · unfold calculateSpeedDeviationDom
     by_cases h : osuTotalSuccessfulHits (osuAdjusted c).state = 0
